@@ -27,17 +27,32 @@ type UnitResult struct {
 // verifyUnits verifies a function, once per value of its split expression when it has one.
 func verifyUnits(p *Prog, fi *FuncInfo) []*UnitResult {
 	if fi.SplitExpr == nil {
-		return []*UnitResult{verifyUnit(p, fi, nil)}
+		return []*UnitResult{verifyUnit(p, fi, nil, nil, 0)}
 	}
 	var out []*UnitResult
 	for k := fi.SplitLo; k <= fi.SplitHi; k++ {
 		kk := k
-		out = append(out, verifyUnit(p, fi, &kk))
+		var conds []ast.Expr
+		for _, sc := range fi.SplitConds {
+			if sc.At == k {
+				conds = append(conds, sc.Expr)
+			}
+		}
+		if len(conds) == 0 {
+			out = append(out, verifyUnit(p, fi, &kk, nil, 0))
+			continue
+		}
+		for mask := 0; mask < 1<<len(conds); mask++ {
+			out = append(out, verifyUnit(p, fi, &kk, conds, mask))
+		}
 	}
 	return out
 }
 
-func verifyUnit(p *Prog, fi *FuncInfo, split *int64) (res *UnitResult) {
+// verifyUnit generates the obligations of one unit: the function, for one
+// value of its split expression and one truth assignment (mask) to the split
+// conditions of that value.
+func verifyUnit(p *Prog, fi *FuncInfo, split *int64, conds []ast.Expr, mask int) (res *UnitResult) {
 	knownLits = map[*Term]*big.Int{}
 	// the folding knowledge of this unit must not leak into terms built later
 	// (other units, query construction)
@@ -45,6 +60,9 @@ func verifyUnit(p *Prog, fi *FuncInfo, split *int64) (res *UnitResult) {
 	x := newExec(p, fi)
 	if split != nil {
 		x.nameSuffix = fmt.Sprintf("[%d]", *split)
+		if len(conds) > 0 {
+			x.nameSuffix = fmt.Sprintf("[%d.%d]", *split, mask)
+		}
 	}
 	x.extUsed = map[string]int{}
 	x.zeroLinks = map[string]func(r *Term) *Term{}
@@ -140,6 +158,15 @@ func verifyUnit(p *Prog, fi *FuncInfo, split *int64) (res *UnitResult) {
 		x.spec--
 		knownLits[t] = big.NewInt(*split)
 		st.pc = append(st.pc, mk("=", SBool, t, IntLit(*split)))
+		for i, ce := range conds {
+			x.spec++
+			c := x.eval(st.clone(), ce)
+			x.spec--
+			if mask&(1<<i) == 0 {
+				c = Not(c)
+			}
+			st.pc = append(st.pc, c)
+		}
 	}
 	fr.entry = st.clone()
 	// preconditions
